@@ -61,7 +61,9 @@ fn connect_spec(c: &ConnectCase) -> Spec {
         0 => None,
         1 => Some(("user".into(), b"pw".to_vec())),
         2 => Some(("u".into(), vec![])),
-        _ => Some(("n".repeat(40), vec![0xFF; 33])),
+        3 => Some(("n".repeat(40), vec![0xFF; 33])),
+        // a password one byte longer than a binary field can be
+        _ => Some(("u".into(), vec![0x5A; 65536])),
     };
     s.will = match c.will {
         0 => None,
@@ -81,6 +83,7 @@ fn connect_spec(c: &ConnectCase) -> Spec {
             ],
         }),
         3 => Some(WillSpec { topic: "w".into(), data: vec![], qos: c.will_qos, retain: c.will_retain, props: vec![] }),
+        5 => Some(WillSpec { topic: "w".into(), data: vec![0x33; 65536], qos: c.will_qos, retain: c.will_retain, props: vec![] }),
         // the longest will there is: 65535-byte payload, topic of two-byte characters
         _ => Some(WillSpec { topic: "w/\u{e9}\u{e9}".into(), data: (0..65535usize).map(|i| (i * 37 + 11) as u8).collect(), qos: c.will_qos, retain: c.will_retain, props: vec![p(0x18, PVal::U32(0xFFFF_FFFF))] }),
     };
@@ -109,13 +112,25 @@ pub fn eval_connect(c: &ConnectCase) -> CaseOut {
             }
             results
         });
+        // a password or will payload of more than 65535 bytes cannot be encoded: the configuration or the connect
+        // has to fail, and no CONNECT may go out
+        let unencodable = c.auth >= 4 || c.will == 5;
         let results = match r {
+            Built::Config(_) if unencodable => return CaseOut { class: 7, viol },
             Built::Config(e) => {
                 flag(&mut viol, "config-refused", "connect", format!("valid configuration refused: {} ({:?})", e, c));
                 return CaseOut { class: 1, viol };
             }
             Built::Ran(r) => r,
         };
+        if unencodable {
+            for (res, written) in &results {
+                if res.is_ok() || !written.is_empty() {
+                    flag(&mut viol, "unencodable-request-sent", "connect", format!("connect with a binary field longer than 65535 bytes: result {:?}, {} bytes written ({:?})", res, written.len(), c));
+                }
+            }
+            return CaseOut { class: 8, viol };
+        }
         let mut class = Vec::new();
         for (round, (res, written)) in results.iter().enumerate() {
             class.push(res.is_ok());
@@ -240,6 +255,10 @@ fn connect_cases(tier: Tier) -> Vec<ConnectCase> {
             v.push(ConnectCase { will: 4, will_qos, will_retain: will_qos == 2, auth, tx: 70_000, ..base.clone() });
         }
     }
+    // binary fields one byte too long to be encoded
+    v.push(ConnectCase { auth: 4, tx: 140_000, ..base.clone() });
+    v.push(ConnectCase { will: 5, tx: 140_000, ..base.clone() });
+    v.push(ConnectCase { will: 5, auth: 3, will_qos: 1, tx: 140_000, second: true, ..base.clone() });
     // receive-buffer sizes (advertised Maximum Packet Size) incl. the 1/2/3-byte varint boundaries of the value
     for rx in [5usize, 6, 24, 127, 128, 255, 256, 16383, 16384, 65535, 65536, 70000] {
         v.push(ConnectCase { rx, ..base.clone() });
@@ -448,10 +467,21 @@ pub fn eval_pub(c: &PubCase) -> CaseOut {
             && topic_len <= 65535
             && corr.as_ref().map_or(true, |x| x.len() <= 65535)
             && !(corr.is_some() && props_ref.iter().any(|q| q.id == 0x09));
+        // a field longer than 65535 bytes cannot be encoded at all: such a request has to fail
+        let encodable = topic_len <= 65535
+            && corr.as_ref().map_or(true, |x| x.len() <= 65535)
+            && want_props.iter().all(|q| match &q.val {
+                PVal::Str(v) | PVal::Bin(v) => v.len() <= 65535,
+                PVal::Pair(k, v) => k.len() <= 65535 && v.len() <= 65535,
+                _ => true,
+            });
         let class;
         match r {
             Ok(has_handle) => {
                 class = 1u8;
+                if !encodable {
+                    flag(&mut viol, "unencodable-request-sent", &format!("qos{}", c.qos), format!("publish with a field longer than 65535 bytes returned Ok and {} bytes were written ({:?})", written.len(), c));
+                }
                 if has_handle != (c.qos > 0) {
                     flag(&mut viol, "handle", &format!("qos{}", c.qos), format!("publish at QoS {} returned handle={}", c.qos, has_handle));
                 }
